@@ -57,13 +57,15 @@ def trees(maxn=4):
     return res
 
 
-def class_defs(pv):
+def class_defs(pv, ns=None):
     cs = []
     for i, p in enumerate(pv):
         fields = [['f%da' % i, I]]
         if i % 2 == 1:
             fields.append(['f%db' % i, U])
         d = {'n': 'C%d' % i, 'fields': fields}
+        if ns:
+            d['ns'] = ns
         if p is not None:
             d['base'] = 'C%d' % p
         cs.append(d)
@@ -82,9 +84,9 @@ def descendants(pv, i):
     return sorted(out)
 
 
-def program(pv, d, warm=None):
+def program(pv, d, warm=None, ns=None):
     D = 'C%d' % d
-    classes = class_defs(pv) + [{'n': 'Holder', 'fields': [['z', I], ['h', ['c', D, {}]]]}]
+    classes = class_defs(pv, ns) + [{'n': 'Holder', 'fields': [['z', I], ['h', ['c', D, {}]]]}]
     ms = [
         {'n': 'arg', 'args': [['a', ['c', D, {}]]], 'ret': ['c', D, {}]},
         {'n': 'arr', 'args': [['l', ['a', ['c', D, {}], {}]]], 'ret': ['a', ['c', D, {}], {}]},
@@ -135,6 +137,9 @@ def shards(tier):
         for d in range(len(pv)):
             for proto in XML + DICT:
                 out.append({'pv': list(pv), 'd': d, 'proto': proto, 'tier': tier})
+            for proto in XML:
+                # the class tree in a namespace of its own (the messages stay in the target namespace)
+                out.append({'pv': list(pv), 'd': d, 'proto': proto, 'tier': tier, 'ns': 'urn:vf:shapes'})
     return out
 
 
@@ -172,14 +177,14 @@ def run_shard(shard, only=None):
     pv = tuple(shard['pv'])
     d = shard['d']
     proto = shard['proto']
-    prog = program(pv, d)
+    prog = program(pv, d, None, shard.get('ns'))
     D = 'C%d' % d
     descs = ['C%d' % j for j in descendants(pv, d)]
     fam = 'xml' if proto in XML else 'dict'
     tree_id = ''.join('-' if p is None else str(p) for p in pv)
     warms = [None] + [x for x in descs if x != D]
     for poly, warm in itertools.product((True, False), warms):
-        prog = program(pv, d, warm)
+        prog = program(pv, d, warm, shard.get('ns'))
         if fam == 'xml':
             h = harness.XmlHarness(prog, proto, None, in_kw={'polymorphic': poly}, out_kw={'polymorphic': poly})
         else:
@@ -218,13 +223,18 @@ def run_shard(shard, only=None):
         for (r1, R1), (r2, R2) in itertools.product(enumerate(descs), repeat=2):
             l = [instance(b.flat_fields, R1, 3), instance(b.flat_fields, R2, 4)]
             cases.append(('arr', 'arr', [l], l, R1 + '+' + R2))
-        for pos, mname, args, ret, rlabel in cases:
+        # (MessagePack has two string families: text keys, and the bin keys Spyne's own writer emits - class
+        # markers included)
+        schemes = ('plain', 'adversarial') if fam == 'xml' else ('plain', 'bin-keys') if proto == 'msgpack' else ('plain',)
+        bin_codec = dictcodec.DictCodec(b, h.codec.wire, False, 'dict', poly, text_keys=False) if proto == 'msgpack' else None
+        for (pos, mname, args, ret, rlabel), scheme in itertools.product(cases, schemes):
             m = b.methods[mname]
-            key = [poly, pos, rlabel, warm]
-            if only is not None and (only[:3] != key[:3] or (len(only) > 3 and only[3] != warm)):
+            key = [poly, pos, rlabel, warm, scheme]
+            if only is not None and (only[:3] != key[:3] or (len(only) > 3 and only[3] != warm) or (len(only) > 4 and only[4] != scheme)):
                 continue
             substituted = rlabel.replace('+', '') != D and any(x != D for x in rlabel.split('+'))
-            sitebase = '%s|poly=%s|%s|%s%s' % (proto, 'on' if poly else 'off', pos, 'subclass' if substituted else 'same', '|after-subclass-call' if warm else '')
+            sitebase = '%s|poly=%s|%s|%s%s%s' % (proto, 'on' if poly else 'off', pos, 'subclass' if substituted else 'same', '|after-subclass-call' if warm else '',
+                                                 '|client-prefixes' if scheme == 'adversarial' else '|bin-keys' if scheme == 'bin-keys' else '')
             casedoc = {'shard': shard, 'only': key}
 
             def V(kind, detail, what, route='server'):
@@ -235,9 +245,14 @@ def run_shard(shard, only=None):
             # ---- request direction: the reference codec spells the runtime class (xsi:type / wrapper key)
             try:
                 if fam == 'xml':
-                    req = xsdcodec.build_request(h.codec, m, args, proto)
+                    # (also with prefixes of the client's own choosing: tns / xs / sN bound to decoy namespaces)
+                    xsdcodec.PREFIX_SCHEME[0] = scheme
+                    try:
+                        req = xsdcodec.build_request(h.codec, m, args, proto)
+                    finally:
+                        xsdcodec.PREFIX_SCHEME[0] = 'plain'
                 else:
-                    req = h.codec.request_bytes(m, args)
+                    req = (bin_codec if scheme == 'bin-keys' else h.codec).request_bytes(m, args)
             except (xsdcodec.SchemaError, xsdcodec.NotDenotable) as e:
                 V('schema-cannot-express', type(e).__name__, 'published schema cannot carry the subclass instance: %s' % e)
                 continue
